@@ -101,6 +101,11 @@ def units(tier, seed):
                 k += 1
                 descs.append(dict(engines=list(eng), gens=gens, obj=objs[k % 5], maximize=mx, Mh=3, seed=s, kelites=1 + k % 2, pmut=(1.0, 0.5)[(k // 2) % 2], observing_gsc=bool((k // 3) % 2),
                                   sprout={"kind": ("simple", "nbc")[(k // 4) % 2], "L": 2}, hib=bool(k % 5 == 0)))
+    # population sizes not divisible by the number of winners per election (MWEA) / odd sizes
+    for eng in [e for e in shapes if "MWEA" in e or "SEAX" in e or "GA" in e][::2]:
+        for pop in (5, 7):
+            k += 1
+            descs.append(dict(engines=list(eng), gens=2, obj=objs[k % 5], maximize=bool(k % 2), Mh=3, seed=s, pop=pop, pmut=(1.0, 0.5)[k % 2], sprout={"kind": "simple", "L": 2}))
     # very small populations: (1+1) and (2+k) SEA
     for eng in [e for e in shapes if all(v in ("SEA", "SEAX", "GA", "SEAA") for v in e)]:
         for mx in (False, True):
